@@ -126,6 +126,8 @@ class C13(Prop):
                          "inclver": rnd.random() < 0.5, "twice": rnd.random() < 0.4})
         for n in range(100 if tier == "quick" else 2000):
             gens.append({"kind": "mode", "seed": n})
+        for n in range(8 if tier == "quick" else 80):
+            gens.append({"kind": "scenario", "name": ["failed_then_good", "result_as_deps"][n % 2], "seed": n, "indent": [None, 2][n // 2 % 2]})
         return gens
 
     def execute(self, g):
@@ -216,6 +218,31 @@ class C13(Prop):
             return {"k": "doc", "segs": g["segs"], "deps": ids, "rest": scan(rest_text, ""), "rendered": marks,
                     "headEmpty": False, "untouched": rest_text == rest_expected,
                     "insEv": tokenize(ins), "docEv": tokenize(headstr), "gen": g}
+        if g["kind"] == "scenario":
+            obs = lambda nm, holds: {"k": "obs", "name": nm, "holds": bool(holds), "gen": g}
+            mk = lambda n: make_dep(H, rnd, hostile=False, name=n, hostile_head=False)
+            a, b_, given = mk("a"), mk("b"), mk("given")
+            ser = lambda d: d.serialize_to_script_json(indent=g.get("indent")).get_html_string()
+            names = lambda r: [d.name for d in r["dependencies"]]
+            if g["name"] == "failed_then_good":
+                # a construction that fails half-way (the second serialised script is not JSON) leaves nothing behind in the
+                # list the caller handed in; a later document built with the same list recovers each dependency once
+                L = [given]
+                broken = '<script type="application/json" data-html-dependency="">{"name": "x", </script>'
+                try:
+                    H.HTMLTextDocument("<p>" + ser(a) + broken + "</p>", deps=L, deps_replace_pattern=PH)
+                    failed = False
+                except Exception:  # noqa
+                    failed = True
+                doc = H.HTMLTextDocument("<head>" + PH + "</head>" + ser(a) + "x" + ser(b_) + ser(a), deps=L, deps_replace_pattern=PH)
+                return obs("OncePerDistinctSerialisationInOrderOfAppearance", failed and names(doc.render()) == ["given", "a", "b"])
+            # what render() returns is the caller's: handing it to another document changes nothing about this one
+            doc1 = H.HTMLTextDocument("<head>" + PH + "</head>" + ser(a), deps_replace_pattern=PH)
+            r1 = doc1.render()
+            doc2 = H.HTMLTextDocument("<head>" + PH + "</head>" + ser(b_), deps=r1["dependencies"], deps_replace_pattern=PH)
+            r1["dependencies"].append(given)
+            ok = names(doc1.render()) == ["a"] and names(doc2.render())[:2] == ["a", "b"] and doc1.render()["html"] == r1["html"]
+            return obs("OncePerDistinctSerialisationInOrderOfAppearance", ok)
         if g["kind"] == "mode":
             # incl. two versions of one name: direct rendering resolves them, and so must the json-mode round trip
             deps = [make_dep(H, rnd, hostile=rnd.random() < 0.5, name=f"m{i % 2}", hostile_head=False) for i in range(rnd.randint(0, 4))]
